@@ -79,6 +79,11 @@ def _gen():
 N_KINDS = 37
 
 
+# built at import, i.e. outside the engine: under tracing CrossHair substitutes its own pure-Python datetime class, whose
+# instances carry mutable bookkeeping attributes (_hashcode, _ord) that change between collection and comparison
+_DATETIME = datetime.datetime(2020, 1, 2, 3, 4, 5)
+
+
 def offending(kind, exc_kind=0):
     """Return (value, is_hostile) for the offending-value kind."""
     BadStr, BadRepr, BadLen, BadAttr, BadDictProp, BadKeyStr = _mk_raiser(exc_kind)
@@ -93,7 +98,7 @@ def offending(kind, exc_kind=0):
     if kind == 4:
         return collections.deque([1, 2]), False
     if kind == 5:
-        return datetime.datetime(2020, 1, 2, 3, 4, 5), False
+        return _DATETIME, False
     if kind == 6:
         return Color.RED, False
     if kind == 7:
@@ -290,6 +295,9 @@ def total(kind: int, pos: int, ek: int, ntp: int, conv: int) -> str:
     ids = [s.tracepoint.id for s in w.push.snapshots]
     if sorted(ids) != ["tp%d" % (i + 1) for i in range(ntp)]:
         return "C06:snapshot-not-produced" if len(ids) < ntp else "C06:snapshot-duplicated"
+    tables = [id(s.var_lookup) for s in w.push.snapshots]
+    if len(set(tables)) != len(tables):
+        return "C06:snapshots-share-one-variable-table"
     for s in w.push.snapshots:
         wexpr = watch if s.tracepoint.id == "tp%d" % ntp else None
         r = _check_one(s, f_locals, hostile, wexpr)
@@ -368,9 +376,9 @@ def _mut_shared_table():
 MUTANTS = {"shared_table": _mut_shared_table, "dict_unguarded": _mut_dict_unguarded, "str_unguarded": _mut_str_unguarded, "key_names_raw": _mut_key_names_raw}
 
 CONDITIONS = [
-    dict(fn="total", cubes={"quick": ["kind == %d and ntp == %d and conv == %d" % (k, 1 + (k % 3), 0 if k in (31, 32) else 1) for k in range(37)] +
+    dict(fn="total", cubes={"quick": ["kind == %d and ntp == %d and conv == 1" % (k, 1 + (k % 3)) for k in range(37)] +
                                      ["kind == %d and ntp == %d and conv == 1" % (k, n) for k in (0, 8, 16, 19) for n in (1, 2, 3)],
-                            "thorough": ["kind == %d and ntp == %d and conv == %d" % (k, n, 0 if k in (31, 32) else 1) for k in range(37) for n in (1, 2, 3)]},
+                            "thorough": ["kind == %d and ntp == %d and conv == 1" % (k, n) for k in range(37) for n in (1, 2, 3)]},
          twins=["reach", "mutant:dict_unguarded@kind == 0 and ntp == 1 and conv == 1", "mutant:str_unguarded@kind == 17 and ntp == 1 and conv == 1",
                 "mutant:key_names_raw@kind == 8 and ntp == 1 and conv == 1", "mutant:shared_table@kind == 0 and ntp == 2 and conv == 1"],
          bounds="37 offending-value kinds x 6 positions (local, list element, dict value, object attribute, watch-only, the local named `self`) x 6 exception classes for the hostile kinds; "
